@@ -87,12 +87,41 @@ impl Property for P {
                                 gap_ms,
                             })
                             .collect(),
+                        realtime_ms: 0,
                     })
             })
             .boxed()
     }
 
+    fn fixed_cases(_tier: Tier) -> Vec<Case> {
+        // real clock, real file metadata: the virtual clock cannot show how the file system's
+        // creation times relate to the wall clock
+        let mk = |nam: Nam, mode: Mode| Case {
+            tz: crate::vtime::tz_name(),
+            cfg: FileCfg {
+                basename: Some("rt".into()),
+                discr: None,
+                suffix: Some("log".into()),
+                start_ts: false,
+                rot: Some(Rot { crit: Crit::Age(AgeU::Second), nam, cln: Cln::Never }),
+                mode,
+                crlf: false,
+                utc: false,
+                symlink: false,
+                bg_cleanup: false,
+                via_logger: true,
+                build_variant: 0,
+            },
+            t0: crate::vtime::VInst::default_inst(),
+            runs: Vec::new(),
+            realtime_ms: 2300,
+        };
+        vec![mk(Nam::Numbers, Mode::Direct), mk(Nam::Timestamps, Mode::BufDontFlush(512)), mk(Nam::NumbersDirect, Mode::Direct)]
+    }
     fn run(case: &Case) -> Outcome {
+        if case.realtime_ms > 0 {
+            return run_realtime(case);
+        }
         let r = run_partition(case, true);
         let mut out = r.out;
         let m = &r.model;
@@ -133,4 +162,77 @@ impl Property for P {
         out.class(&format!("tz:{}", case.tz));
         out
     }
+}
+
+/// Real-time case: records are logged in a tight loop while the wall clock crosses second
+/// boundaries; each record carries the second shown by the clock right before and right after its
+/// log call. Oracle: the number of non-empty files is at most the number of distinct seconds seen
+/// (one file per period, no second rotation within a period), and no file holds records of two
+/// seconds that are not adjacent readings of one record.
+fn run_realtime(case: &Case) -> Outcome {
+    use crate::hooks::h;
+    use crate::util::Scratch;
+    let mut out = Outcome::ok();
+    out.class("real-time");
+    let sc = Scratch::new("c09rt");
+    let dir = sc.sub("logs");
+    h().set_time(None);
+    let sess = match Sess::start(&case.cfg, &dir, false, None, None) {
+        Ok(s) => s,
+        Err(e) => return Outcome::fail("start-failed", e),
+    };
+    let sec = || chrono::Local::now().timestamp();
+    let t0 = std::time::Instant::now();
+    let mut seen = std::collections::BTreeSet::new();
+    let mut q = 0u32;
+    // (record number -> seconds read before / after the call)
+    let mut stamps = Vec::new();
+    while t0.elapsed() < std::time::Duration::from_millis(u64::from(case.realtime_ms)) {
+        let a = sec();
+        sess.write(&crate::util::payload(0, q, 12));
+        let b = sec();
+        seen.insert(a);
+        seen.insert(b);
+        stamps.push((a, b));
+        q += 1;
+        if q % 16 == 0 {
+            std::thread::sleep(std::time::Duration::from_micros(300));
+        }
+    }
+    sess.shutdown();
+    let snap = crate::observe::snapshot(&dir);
+    let fam = match crate::observe::family(&case.cfg, &snap) {
+        Ok(f) => f,
+        Err(e) => return Outcome::fail("family-illformed", e),
+    };
+    let files: Vec<&crate::observe::FamFile> = fam.iter().filter(|f| !f.content.is_empty()).collect();
+    let listing = || files.iter().map(|f| format!("{}[{} records]", f.name, f.content.iter().filter(|b| **b == b'\n').count())).collect::<Vec<_>>().join(", ");
+    if files.len() > seen.len() {
+        out.set_fail(
+            "real-time:more-files-than-periods",
+            format!("{} records logged while the clock showed {} different seconds, but {} non-empty files exist: {}", q, seen.len(), files.len(), listing()),
+        );
+        return out;
+    }
+    for f in &files {
+        let mut secs = std::collections::BTreeSet::new();
+        for line in String::from_utf8_lossy(&f.content).lines() {
+            if let Some(n) = line.split(':').nth(1).and_then(|x| x.parse::<usize>().ok()) {
+                if let Some((a, b)) = stamps.get(n) {
+                    secs.insert((*a, *b));
+                }
+            }
+        }
+        // all records of a file fit into one second (a record read in two seconds counts for either)
+        let lo = secs.iter().map(|(a, _)| *a).max().unwrap_or(0);
+        let hi = secs.iter().map(|(_, b)| *b).min().unwrap_or(0);
+        if lo > hi {
+            out.set_fail("real-time:file-spans-periods", format!("file {} holds records of different seconds; files: {}", f.name, listing()));
+            return out;
+        }
+    }
+    if seen.len() >= 3 && q > 100 {
+        out.nontrivial = true;
+    }
+    out
 }
